@@ -38,6 +38,7 @@ def gen_case(rng):
         case["rel"] = rng.choice(cs.RELS)
         case["sympos"] = rng.randrange(3)
         case["cancel"] = rng.random() < 0.5     # one more term whose coefficient (s - c) is exactly 0 at the substituted value
+        case["chain"] = rng.choice([None, "lam_first", "s_first"])      # the two symbols substituted one after the other
     elif kind == "gate":
         case["spin"] = False
         gate = rng.choice(cs.GATES)
@@ -57,6 +58,11 @@ def gen_case(rng):
         case["src"] = rng.choice(["PUSO", "PCSO"] if spin else ["PUBO", "PCBO"])
         case["target"] = rng.choice(["qubo", "quso", "pubo", "puso"])
         case["deg"] = rng.choice([2, 3])
+    if kind in ("cmp", "gate") and rng.random() < 0.12:
+        # a very small weight (2^-40): every coefficient of the model is then tiny; the record holds the coefficients divided by it
+        case["tiny"] = True
+        case["objective"] = None
+        case["c"] = (1, 1)
     return case
 
 
@@ -112,8 +118,13 @@ def run_case(case, cid):
     lam = sympy.Symbol("lam")
     cnum, cden = case["c"]
     cval = cnum if cden == 1 else cnum / cden
+    unscale = Fraction(1)
+    if case.get("tiny"):
+        cval = 2.0 ** -40
+        unscale = Fraction(2) ** -40
     rec = {"id": cid, "spin": case["spin"], "cnum": cnum, "cden": cden, "den": 1, "sym": [], "affine": False, "subbed": [], "direct": [],
-           "type_sym": "", "type_subbed": "", "type_direct": "", "cons_subbed": [], "cons_direct": [], "orig_unchanged": True, "raised": "", "py_equal": True}
+           "type_sym": "", "type_subbed": "", "type_direct": "", "cons_subbed": [], "cons_direct": [], "orig_unchanged": True, "raised": "", "py_equal": True,
+           "subs_independent": True}
 
     def nm_key(k):
         return [x if (isinstance(x, int) and not isinstance(x, bool) and case["kind"] == "reduce") else names.name(x) for x in k]
@@ -126,8 +137,29 @@ def run_case(case, cid):
             subsmap = {lam: cval}
             if case["kind"] == "symcons":
                 subsmap[sympy.Symbol("s")] = cval
-            Sub = S.subs(subsmap)
+            if case.get("chain") == "lam_first":
+                Sub = S.subs({lam: cval}).subs({sympy.Symbol("s"): cval})
+            elif case.get("chain") == "s_first":
+                Sub = S.subs({sympy.Symbol("s"): cval}).subs({lam: cval})
+            else:
+                Sub = S.subs(subsmap)
             Dn = build(case, cval)
+            # subs on a model that holds no symbol (any more) still hands out a NEW model: writing into it afterwards must not
+            # show in the model it was called on
+            for M_ in (Dn, Sub):
+                st_ = ({tuple(k): v for k, v in dict.items(M_)}, copy.deepcopy(M_.constraints) if hasattr(M_, "constraints") else None)
+                N_ = M_.subs({lam: cval})
+                try:
+                    N_[(case["labels"][0],)] = 12345
+                    N_[("__poked__",)] = 1
+                    if hasattr(N_, "_constraints"):
+                        for ps_ in N_._constraints.values():
+                            for p_ in ps_:
+                                p_[("__poked__",)] = 1
+                except Exception:      # noqa
+                    pass
+                if ({tuple(k): v for k, v in dict.items(M_)}, copy.deepcopy(M_.constraints) if hasattr(M_, "constraints") else None) != st_:
+                    rec["subs_independent"] = False
         rec["orig_unchanged"] = ({tuple(k): v for k, v in dict.items(S)} == snap and
                                  (snap_cons is None or S.constraints == snap_cons))
         rec["type_sym"], rec["type_subbed"], rec["type_direct"] = type(S).__name__, type(Sub).__name__, type(Dn).__name__
@@ -151,8 +183,8 @@ def run_case(case, cid):
             else:
                 affine = False
                 break
-        sub_t = [(tuple(k), v) for k, v in dict.items(Sub)]
-        dir_t = [(tuple(k), v) for k, v in dict.items(Dn)]
+        sub_t = [(tuple(k), common.frac(v) / unscale) for k, v in dict.items(Sub)]
+        dir_t = [(tuple(k), common.frac(v) / unscale) for k, v in dict.items(Dn)]
         fr = [common.frac(v) for _, v in sub_t] + [common.frac(v) for _, v in dir_t]
         if affine:
             fr += [x for _, a, b in pairs for x in (a, b)]
